@@ -193,6 +193,7 @@ type response struct {
 	Runs  []Result  `json:"runs"`
 	Fault *FaultRes `json:"fault"`
 	Bad   string    `json:"bad"`
+	Gor   int       `json:"gor"`
 }
 
 // Server is one job-server process with its own scratch directory. Not safe
@@ -207,6 +208,8 @@ type Server struct {
 	joblog *os.File
 	Jobs   int
 	Deaths int
+	// LastGor: goroutines alive in the server once the last job was over (0: the hook does not report it)
+	LastGor int
 }
 
 // NewServer starts a job server; dir is created.
@@ -307,6 +310,7 @@ func (s *Server) roundTrip(j job, timeout time.Duration) (response, string) {
 	var resp response
 	if got.err == nil && !timedOut {
 		if err := json.Unmarshal(got.line, &resp); err == nil {
+			s.LastGor = resp.Gor
 			return resp, ""
 		} else {
 			got.err = fmt.Errorf("bad response: %v: %.200q", err, got.line)
